@@ -935,6 +935,30 @@ func ruleGRDnoQueryShortcut(w *World, r *Report) {
 			qParam = p
 		}
 	}
+	// the arguments may travel in a parameter record (`p fusionParams`): its []float32 field is the query vector
+	queryField := ""
+	if qParam == nil {
+		for _, p := range fn.Params {
+			t := p.Type()
+			if pt, ok := t.Underlying().(*types.Pointer); ok {
+				t = pt.Elem()
+			}
+			if st, ok := t.Underlying().(*types.Struct); ok {
+				hasK := false
+				for i := 0; i < st.NumFields(); i++ {
+					if strings.HasSuffix(st.Field(i).Type().String(), "[]float32") {
+						queryField = st.Field(i).Name()
+					}
+					if st.Field(i).Name() == "k" {
+						hasK = true
+					}
+				}
+				if queryField != "" && hasK {
+					kParam, qParam = p, p
+				}
+			}
+		}
+	}
 	if kParam == nil || qParam == nil {
 		r.Und("GRD-no-query-shortcut", "Engine.searchWithFusion:parameters", w.Pos(fi.Decl.Pos()), "the k / query parameters were not found (shape not recognised)")
 		return
@@ -950,7 +974,10 @@ func ruleGRDnoQueryShortcut(w *World, r *Report) {
 			if x.Op == token.MUL {
 				if ia, ok := x.X.(*ssa.IndexAddr); ok {
 					for _, rt := range append(valueRoots(ia.X), ia.X) {
-						if rt == ssa.Value(qParam) {
+						if rt == ssa.Value(qParam) && queryField == "" {
+							return true
+						}
+						if queryField != "" && paramFieldRead(rt, queryField) {
 							return true
 						}
 					}
@@ -1782,8 +1809,17 @@ func ruleGRDfrozenset(w *World, r *Report) {
 			for _, g := range u.grows {
 				for h := innermostLoop(f, g.Block()); h != nil; {
 					body := naturalLoop(h)
+					// a set made inside this loop is a new set in every round: what one round adds, no other round consults
+					if mk, ok := root(g.(*ssa.MapUpdate).Map).(*ssa.MakeMap); ok && mk.Parent() == f && body[mk.Block()] {
+						break
+					}
 					for _, l := range u.looks {
 						if body[l.Block()] {
+							// (a loop that looks up only the very element it then adds — "seen before? else remember it" — keeps a
+							// duplicate filter, not a frozen set: nothing else was checked against the set while it grew)
+							if lk, ok := l.(*ssa.Lookup); ok && (lk.Index == g.(*ssa.MapUpdate).Key || sameVal(lk.Index, g.(*ssa.MapUpdate).Key)) {
+								continue
+							}
 							bad, wit = true, []ssa.Instruction{l, g}
 						}
 					}
